@@ -459,6 +459,16 @@ class ProgGen:
                 args = [PArg(a.ty, a.name, a.default) for a in sigs[sg]]
                 ret = t.pick(rets if name != "Scale" else rets[:3], "ov-ret")
                 dest.append(PFunc(kind, name, ret, args, const=(kind == "method" and t.bool(0.5, "ov-const"))))
+        # overloads that MATLAB can tell apart by shape only: a column (Vector) or any double array (Matrix),
+        # in this order, for a constructor, a static method, a method and a free function
+        V, M = PType("eig", "Vector"), PType("eig", "Matrix")
+        vm = t.pick(["cref", "val"], "ov-vm-mode")
+        for ty, nm in ((V, "v"), (M, "m")):
+            aty = PType("eig", ty.name, vm) if vm == "cref" else ty
+            c.ctors.append(PFunc("ctor", c.name, None, [PArg(aty, nm), PArg(I, "tag")]))
+            c.statics.append(PFunc("static", "FromArray", I, [PArg(aty, nm)]))
+            c.methods.append(PFunc("method", "absorb", I, [PArg(aty, nm)]))
+            self.p.functions.append((ns, PFunc("func", "shapeOf" + c.name, I, [PArg(aty, nm)])))
         if self.f.get("static_void", True):
             c.statics.append(PFunc("static", "Reset", PType("prim", "void"), [PArg(I, "n", ("3", 3))]))
             c.statics.append(PFunc("static", "Both", ("pair", t.pick(rets[:3], "ov-p1"), t.pick(rets, "ov-p2")),
